@@ -308,12 +308,36 @@ fn const_monty(cx: &mut Cx, iters: usize) {
     }
 }
 
+impl_modulus!(CM64B, U64, "c000000000000001");
+impl_modulus!(CM64C, U64, "00000000000000c1");
+/// uniformity of `ConstMontyForm::random` by the same counting statement as for `random_mod`: all 2^8 patterns of a
+/// field of the candidate word, the rest of the stream fixed
+fn unif_const(cx: &mut Cx, iters: usize) {
+    macro_rules! one { ($M:ty, $it:expr) => {{
+        let m = <$M as ConstMontyParams<1>>::MODULUS.get().to_words()[0];
+        let tbits = 64 - m.leading_zeros() as usize;
+        let kb = tbits.min(8);
+        let sh = if $it % 2 == 0 { tbits - kb } else { cx.rng.below(tbits - kb + 1) };
+        let outside = if cx.rng.coin() { m } else { cx.rng.next() } & (MAX >> (64 - tbits)) & !(((1u64 << kb) - 1) << sh);
+        let garbage = cx.rng.next() & !(MAX >> (64 - tbits).min(63)) & if tbits == 64 { 0 } else { MAX };
+        cx.call(Ev::new("unif", "ConstMontyForm.random").i("bits", 64).n("m", &[m]).i("kb", kb as i64).i("sh", sh as i64).n("lowfix", &[outside]).i("sl", 8), || {
+            let mut outs = vec![]; let mut cs = vec![];
+            for t in 0..(1u64 << kb) {
+                let mut s = Script::new(words_bytes(&[outside | (t << sh) | garbage]));
+                let v = ConstMontyForm::<$M, 1>::random(&mut Inf(&mut s));
+                outs.push(w(&v.retrieve())); cs.push(vec![s.pos as u64]);
+            }
+            O::ok().nl("outs", &outs).nl("cs", &cs) });
+    }}; }
+    for it in 0..iters { one!(CM64B, it); one!(CM64C, it); one!(CM64, it); }
+}
+
 fn main() {
     let mut cx = Cx::from_args("C19");
     let s = cx.scale;
     if cx.want("rmod") {
         rmod_fixed::<1>(&mut cx, 400 * s); rmod_fixed::<2>(&mut cx, 400 * s); rmod_fixed::<3>(&mut cx, 300 * s); rmod_fixed::<4>(&mut cx, 400 * s); rmod_fixed::<8>(&mut cx, 200 * s);
-        rmod_boxed(&mut cx, 600 * s); rmod_limb(&mut cx, 600 * s); const_monty(&mut cx, 100 * s);
+        rmod_boxed(&mut cx, 600 * s); rmod_limb(&mut cx, 600 * s); const_monty(&mut cx, 100 * s); unif_const(&mut cx, 12 * s);
     }
     if cx.want("rbits") {
         rbits_fixed::<1>(&mut cx, 4 * s); rbits_fixed::<2>(&mut cx, 3 * s); rbits_fixed::<3>(&mut cx, 2 * s); rbits_fixed::<4>(&mut cx, s); rbits_fixed::<8>(&mut cx, s);
